@@ -8,6 +8,34 @@ use ::image::{
 use log::*;
 use std::io::Cursor;
 
+/// Check that the JPEG stream of a mipmap level has the dimensions the BLP header gives
+/// that level, before anything is decoded
+///
+/// The frame header of the embedded stream is untrusted: decoding allocates for the
+/// dimensions found there, so a small file could otherwise request a buffer of any
+/// size the JPEG decoder accepts.
+pub(crate) fn check_jpeg_dimensions(
+    header: &BlpHeader,
+    image: &BlpJpeg,
+    mipmap_level: usize,
+) -> Result<(), Error> {
+    let raw_jpeg = image
+        .full_jpeg(mipmap_level)
+        .ok_or(Error::MissingImage(mipmap_level))?;
+    let (jpeg_width, jpeg_height) =
+        ImageReader::with_format(Cursor::new(raw_jpeg), ImageFormat::Jpeg).into_dimensions()?;
+    let (width, height) = header.mipmap_size(mipmap_level);
+    if (jpeg_width, jpeg_height) != (width, height) {
+        return Err(Error::MismatchSizes(
+            mipmap_level,
+            width,
+            height,
+            (jpeg_width as usize).saturating_mul(jpeg_height as usize),
+        ));
+    }
+    Ok(())
+}
+
 pub fn jpeg_to_image(image: &BlpJpeg, mipmap_level: usize) -> Result<DynamicImage, Error> {
     let raw_jpeg = image
         .full_jpeg(mipmap_level)
